@@ -44,6 +44,14 @@ Fixpoint enc (t : list str) : str :=
 (* the encoding before fix 3978e4d: plain concatenation *)
 Definition enc_old (t : list str) : str := concat t.
 
+(* a tempting "simplification" of the repaired encoding: the length without the ':' — ambiguous as soon as a length has
+   two digits (refuted in InteractProofs.enc_nosep_refuted) *)
+Fixpoint enc_nosep (t : list str) : str :=
+  match t with
+  | [] => []
+  | v :: t' => dec (length v) ++ v ++ enc_nosep t'
+  end.
+
 (* ---- names ---- *)
 Definition SEP_AND : str := [32; 65; 78; 68; 32]%N.                          (* " AND " *)
 Definition SEP_AND_REL : str := [32; 65; 78; 68; 95; 82; 69; 76; 32]%N.      (* " AND_REL " *)
